@@ -61,9 +61,10 @@ Definition sort_by_key_push_fin (key : val -> val) (buf : list val) : list val *
 (* ---- reduce_no_replay (reduce_no_replay.rs): state = accumulator (None = [] / Some a = [a]).
    pull: drain with `__was_updated = true` per item, then emit the accumulator if it was updated
    or this is tick 0.
-   push: push::reduce_ref whose closure sets the `was_updated` cell, then filter on
-   `was_updated || tick 0`; but ReduceState::accumulate stores the FIRST item into an empty
-   accumulator WITHOUT calling the closure, so the cell is not set by that item. *)
+   push (since /repo 6436e27651c): `push::inspect(|_| was_updated.set(true), reduce_ref(..))`: the
+   flag is set for every incoming item, before the reduce -- ReduceState::accumulate stores the first
+   item into an empty accumulator without calling the reduce closure -- then filter on
+   `was_updated || tick 0`. *)
 Definition reduce_nr_pull (f : val -> val -> val) (tick0 : bool) (acc : list val) (items : list val)
   : list val * list val :=
   let acc' := fold_left (reduce_ins f) items acc in
@@ -71,9 +72,15 @@ Definition reduce_nr_pull (f : val -> val -> val) (tick0 : bool) (acc : list val
 
 Definition reduce_nr_push_step (f : val -> val -> val) (s : list val * bool) (x : val)
   : (list val * bool) * list val :=
-  match fst s with
-  | [] => (([x], snd s), [])                 (* None => *accum = Some(item): the closure is not called *)
-  | a :: _ => (([f a x], true), [])          (* Some(acc) => closure: was_updated.set(true); func(acc, item) *)
-  end.
+  ((reduce_ins f (fst s) x, true), []).       (* inspect: was_updated.set(true); then accumulate *)
 Definition reduce_nr_push_fin (tick0 : bool) (s : list val * bool) : (list val * bool) * list val :=
   (s, if snd s || tick0 then fst s else []).
+
+(* the push realisation before /repo 6436e27651c: the flag was set inside the reduce closure, which
+   is not called for the first item stored into an empty accumulator (former finding) *)
+Definition reduce_nr_push_step_old (f : val -> val -> val) (s : list val * bool) (x : val)
+  : (list val * bool) * list val :=
+  match fst s with
+  | [] => (([x], snd s), [])
+  | a :: _ => (([f a x], true), [])
+  end.
